@@ -214,6 +214,32 @@ def run(facts, R):
         ok = len(errs) == 2 and any(any("notin', [48, 49]" in x for x in g) for g in errs) and any(any("next#2(" in x and x.endswith("is None") for x in g) for g in errs)
         R.check(ok, "escape-tables", ut.path, "other escapes and a dangling '~' are errors", "error rows: %s" % [[x[-50:] for x in g] for g in errs], ut.span)
 
+    # ---------------- write-is-all-or-nothing: set_pointer either stores the value or reports an error and leaves the document as
+    # it was.  Structurally: once it has changed the tree (an insert, an entry().or_insert*, a push/remove, a store through a
+    # `&mut Value`) no error exit is reachable any more - a rejected write that vivified a parent on the way would answer later
+    # reads differently from a plain JSON tree
+    sp = facts.body("registry::set_pointer")
+    sps = Sym(sp)
+    muts = []
+    for i, t in sp.calls():
+        nm = t["callee"]["name"]
+        pth = t["callee"]["path"]
+        if nm in ("insert", "or_insert", "or_insert_with", "or_default", "push", "remove", "swap_remove", "shift_remove", "clear", "retain", "append", "extend", "take", "replace") \
+                and ("serde_json" in pth or "Vec<" in " ".join(t.get("arg_tys", [])) or "Map<" in " ".join(t.get("arg_tys", []))):
+            muts.append((term_pt(sp, i), nm))
+    for i, j, st in sp.assigns():
+        pl = st["place"]
+        if pl["p"] and pl["p"][-1] == "deref" and "Value" in sp.local_ty(pl["l"]) and i in sp.live_blocks():
+            muts.append(((i, j), "*slot = value"))
+    R.floor("write-is-all-or-nothing", len(muts), 1, "mutations of the document in set_pointer")
+    err_pts = [(i, j) for i, j, st in blocks_assigning_variant(sp, "std::result::Result", "Err")] + \
+              [term_pt(sp, i) for i, t in sp.calls() if t["callee"]["name"] == "from_residual"]
+    for pt, nm in muts:
+        w = must_cross(sp, [pt], err_pts, [])
+        R.check(w is None, "write-is-all-or-nothing", sp.path, "no error exit after the tree was changed (%s)" % nm,
+                "set_pointer can still fail after it has modified the document through `%s`: a rejected write leaves a trace (e.g. a vivified parent) "
+                "that later reads observe" % nm, sp.span, "every error exit precedes the first mutation", path=w)
+
     # ---------------- pointer-suffix ----------------------------------------------------------------------------------------
     pf = facts.body("server::RegisteredRegistry::pointer_for")
     rows = value_rows(pf, Sym(pf), facts, 0)
@@ -225,6 +251,9 @@ def run(facts, R):
     fclos = [render(Sym(c).local(0)) for c in facts.children(pf.path)]
     vals = [("Option::Some{0: (Try>::branch(<impl str>::strip_prefix(arg2, arg1.prefix)) as Continue).0}"
              if (v.startswith(filt) and all("starts_with(" in x for x in fclos)) else v) for v in vals]
+    # the same remainder through the rewritten filter / let-else forms: the Some payload of strip_prefix itself
+    vals = [("Option::Some{0: (Try>::branch(<impl str>::strip_prefix(arg2, arg1.prefix)) as Continue).0}"
+             if v == "Option::Some{0: (<impl str>::strip_prefix(arg2, arg1.prefix) as Some).0}" else v) for v in vals]
     unknown = [v for v in vals if v not in allowed and "from_residual" not in v]
     R.check(not unknown and "Option::Some{0: (Try>::branch(<impl str>::strip_prefix(arg2, arg1.prefix)) as Continue).0}" in vals, "pointer-suffix", pf.path, "mount passes the stripped remainder unmodified",
             "pointer_for can return %s" % unknown, pf.span, "remainder of strip_prefix, \"/\" or the path itself")
